@@ -200,11 +200,41 @@ func c10Order(c *Ctx) *RuleResult {
 			tu = x
 		}
 	}
+	// ... or a helper that is handed the directory list as an argument
+	var listParam types.Object
+	if tu == tu0 {
+		ast.Inspect(tu0.Decl.Body, func(n ast.Node) bool {
+			call, ok := n.(*ast.CallExpr)
+			if !ok {
+				return true
+			}
+			h := calleeOf(tu0.Info(), call)
+			if h == nil || p.UnitOf(h) == nil || h.Pkg() == nil || relPkg(h.Pkg()) != builderPkg {
+				return true
+			}
+			for ai, a := range call.Args {
+				if fieldOf(tu0.Info(), a) == dirsField || fieldOf(tu0.Info(), resolveLocalAlias(tu0, a)) == dirsField {
+					sig := h.Type().(*types.Signature)
+					if ai < sig.Params().Len() {
+						tu = p.UnitOf(h)
+						listParam = sig.Params().At(ai)
+					}
+				}
+			}
+			return true
+		})
+	}
 	tinfo := tu.Info()
 	isList := func(e ast.Expr) bool {
 		e = ast.Unparen(e)
 		if sl, ok := e.(*ast.SliceExpr); ok {
 			e = ast.Unparen(sl.X)
+		}
+		if id, ok := e.(*ast.Ident); ok && listParam != nil && tinfo.ObjectOf(id) == listParam {
+			return true
+		}
+		if id, ok := ast.Unparen(resolveLocalAlias(tu, e)).(*ast.Ident); ok && listParam != nil && tinfo.ObjectOf(id) == listParam {
+			return true
 		}
 		return fieldOf(tinfo, resolveLocalAlias(tu, e)) == dirsField || fieldOf(tinfo, e) == dirsField
 	}
